@@ -69,7 +69,7 @@ func gen(stream, tier string, seed uint64) {
 var accAlphabetFull = []string{
 	"{-1", "{0", "{1", "{2", "}", "[-1", "[0", "[1", "]", "0",
 	"s", "s6b", "s6b32", "x", "x01", "b0", "b1", "i-1", "i0", "u0", "u24",
-	"f3ff8000000000000", "f7ff8000000000001", "f7ff0000000000000", "ffff0000000000000", "t0.s6b", "t24.[0", "t5.0",
+	"f3ff8000000000000", "f7ff8000000000001", "f7ff0000000000000", "ffff0000000000000", "t0.s6b", "t24.[0", "t5.0", "t2.x01", "t3.x",
 }
 var accAlphabetSmall = []string{
 	"{-1", "{1", "}", "[-1", "[0", "]", "0", "s6b", "x01", "b1", "i-1", "u0", "f3ff8000000000000", "t5.s6b",
